@@ -379,6 +379,7 @@ def run(ctx):
         add("dirty-outdir", {"PYTHONHASHSEED": "0"}, dirty=stale)
     cres = isolate.pmap(cli_run, jobs, W)
     ref = {}
+    ref_abs = {}
     for (name, label), (st, tree) in zip(labels, cres):
         ctx.outcome("dimension " + st)
         if st != "ok":
@@ -390,6 +391,17 @@ def run(ctx):
         l0, t0 = ref[name]
         a, b = dict(t0), dict(tree)
         if label.startswith("abs") or l0.startswith("abs"):
+            # setup.py names its sources by the output path as given: absolute runs are compared with each other
+            # (same absolute arguments, different current directory), without setup.py with the relative runs
+            if label.startswith("abs"):
+                if name in ref_abs:
+                    la, ta = ref_abs[name]
+                    if ta.get("setup.py") != tree.get("setup.py"):
+                        ctx.violation("dimension %s abs-cwd setup.py" % name, "%s: setup.py differs between %s and %s (same absolute paths, other current directory):\n%s" % (
+                            name, la, label, "\n".join(isolate.diff_trees({"setup.py": ta.get("setup.py", b"")}, {"setup.py": tree.get("setup.py", b"")}, 1))),
+                                      {"kind": "dimension", "lib": name, "label": label})
+                else:
+                    ref_abs[name] = (label, tree)
             a.pop("setup.py", None)
             b.pop("setup.py", None)
         if a != b:
